@@ -89,6 +89,11 @@ def inputs12(ck, rnd):
                 pass
             if quick:
                 break
+    # property service frames (device management): request / confirmation with data, with an error code, indication
+    for code in (0xFC, 0xFB, 0xF6, 0xF5, 0xF7):
+        for tail in (bytes([0x10, 0x01]), bytes([0x10, 0x01, 0x07]), bytes([0x20, 0x01, 0xAA, 0xBB]), bytes([0x00, 0x01, 0x07]), bytes([0x00, 0x01])):
+            valid.append(("mprop", bytes([code, 0x00, 0x0B, 0x01, 0x34]) + tail))
+            valid.append(("mprop", bytes([code, 0x00, 0x00, 0x01, 0x0B]) + tail))
     for kind, raw in valid:
         out.append((kind, "valid", raw))
         n = len(raw)
@@ -197,7 +202,11 @@ def run13(ck):
                  "same": 0, "lenfield": -1, "kind": kind}
             try:
                 data = CEMILData.init_from_telegram(tg, src_addr=IndividualAddress(0x1109))
-                data.flags = CEMIFlags(priority=prio, repeat_on_error=bool(rep), acknowledge_request=bool(ack), hop_count=hop)
+                if (hop + rep) % 2:                       # flags given at construction ...
+                    data.flags = CEMIFlags(priority=prio, repeat_on_error=bool(rep), acknowledge_request=bool(ack), hop_count=hop)
+                else:                                     # ... or set on the frame built from the telegram
+                    data.flags.priority, data.flags.repeat_on_error, data.flags.acknowledge_request = prio, bool(rep), bool(ack)
+                    data.flags.hop_count = hop
                 raw = CEMIFrame(code=CEMIMessageCode.L_DATA_IND, data=data).to_knx()
                 c.update(out="ok", ft=raw[2] >> 7, at=raw[3] >> 7, lenfield=raw[8])
                 back = CEMIFrame.from_knx(raw).data
@@ -216,10 +225,11 @@ def run13(ck):
             if out != "frame" or not isinstance(fr.data, CEMILData):
                 continue
             n = raw[1]
-            c = {"t": "reser", "out": "ok", "lendiff": 0, "diff": [], "ctrl1": 2 + n, "apci1": 10 + n, "svc": "", "long": 0, "kind": mk}
+            c = {"t": "reser", "out": "ok", "lendiff": 0, "diff": [], "ctrl1": 2 + n, "apci1": 10 + n, "svc": "", "long": 0, "kind": mk, "ft2": -1, "npdu": raw[8 + n]}
             try:
                 again = fr.to_knx()
                 c["lendiff"] = len(again) - len(raw)
+                c["ft2"] = again[2 + n] >> 7
                 c["diff"] = diffbits(raw, again)
                 pl = fr.data.payload
                 c["svc"] = type(pl).__name__ if pl is not None else ""
